@@ -10,7 +10,7 @@ def bind_rule_vocab(callers):
     """make the C02 document generator talk about the callers that really exist"""
     rb.USERS = ["root", "alice", "bob"]
     rb.GROUPS = ["users", "docker", "adm", "wheel", "root"]
-    rb.PROCS = ["curl", "waagent", "python3"]
+    rb.PROCS = ["curl", "waagent", "python3", "azure-monitor-agent-core"]
     rb.EXES = [callers.procs[n]["exe"] for n in ("curl", "waagent", "python3", "tool")]
 
 
@@ -34,7 +34,7 @@ def gen_env(rng, st, with_key=None, distinct_only=True):
 
 def gen_caller(rng, callers):
     uid = rng.pick([0, 0, 1000, 1001, 1002])
-    proc = rng.pick(["curl", "waagent", "python3", "tool"])
+    proc = rng.pick(["curl", "waagent", "python3", "tool", "azure-monitor-agent-core", "azure-monitor-attacker"])
     elevated = (uid == 0) if rng.chance(9, 10) else (uid != 0)
     return callers.caller(uid, proc, elevated)
 
@@ -165,3 +165,23 @@ def query_rule_sessions(callers, key=KEY):
             [qreq("vault", ds), qreq("storage", ds), qreq("STORAGE", ds), qreq("vault", ds)],
             [qreq("storage", ds), qreq("storage", dv), qreq("vault", dv), qreq("vault", ds), qreq("storage", ds)],
             [qreq("storage", ds), qreq("storage", da), qreq("vault", da), qreq("vault", da), qreq("vault", ds)]]
+
+
+def process_name_cases(callers, key=KEY):
+    """rules that name a program by a name longer than 15 bytes: the program itself, and another one whose name agrees with it in
+    the first 15 bytes only (IMDS, user alice); by process name and by executable path"""
+    long_, near = "azure-monitor-agent-core", "azure-monitor-attacker"
+
+    def doc(ident, mode="enforce"):
+        return {"id": "pn-" + "-".join(sorted(ident)), "mode": mode, "defaultAccess": "deny", "rules": {
+            "privileges": [{"name": "p1", "path": "/metadata", "queryParameters": None}],
+            "roles": [{"name": "r1", "privileges": ["p1"]}],
+            "identities": [dict({"name": "i1"}, **ident)],
+            "roleAssignments": [{"role": "r1", "identities": ["i1"]}]}}
+    out = []
+    for ident in ({"processName": long_}, {"exePath": callers.procs[long_]["exe"]}, {"processName": long_, "userName": "alice"}):
+        for proc in (long_, near, "curl"):
+            out.append({"env": {"ws": None, "imds": doc(ident), "hostga": None, "key": key}, "caller": callers.caller(1000, proc, False),
+                        "dest": dict(DESTS)["imds"], "label": "imds", "plan": None,
+                        "req": {"method": "GET", "target": "/metadata/instance?who=" + proc[-8:], "headers": [(b"Host", b"h")], "body": None, "chunked": None}})
+    return out
